@@ -523,6 +523,15 @@ def sym_appenders(vc):
                 # never from the values of a data package (datapackage.json or a (descriptor, iterators) pair)
                 want = (['limiter'] if limit is not None else []) + (['stripper'] if strip and kind == 'file' else [])
                 check(it, 'wrapper-order-limit(strip(cast(iterator)))[%s,%s,%s]' % (strip, limit, kind), chain == want and g is src)
+            # a (descriptor, iterators) pair: after the last loaded stream was handed on, the source's stream of resources is read to
+            # its end, so that a flow behind it finishes (its dumps get their descriptor, its checkpoints their final name, its
+            # finalizers are called: C05); nothing of the kind for files and data packages
+            drains = [i for i, e in enumerate(evs) if e.kind == 'Drain' and e.src is ld.attrs['iterators']]
+            last_yield = max([i for i, e in enumerate(evs) if e.kind == 'Yield'] or [-1])
+            if kind == 'pair':
+                check(it, 'pair-source-read-to-its-end-after-the-last-stream[%s,%s]' % (strip, limit), len(drains) == 1 and drains[0] > last_yield)
+            else:
+                check(it, 'nothing-drained-for-file-and-package-sources[%s,%s,%s]' % (strip, limit, kind), not drains)
         vc.explore(fk3, thunk3)
 
 
